@@ -140,8 +140,9 @@ class ModSim(Sim):
             kind = rng.choice(kinds)
             ev = {"k": "new_module", "mid": st.next_mid, "kind": kind}
             if kind.startswith("seq"):
-                ev["tags"] = [rng.randint(1, 9) for _ in range(rng.randint(1, 4))]
-                ev["keys"] = rng.sample(["x", "y", "z", "u", "v"], len(ev["tags"]))
+                n = rng.randint(1, 4) if rng.random() < 0.8 else rng.randint(10, 13)      # more than 10 positional entries: "10" < "9" as strings
+                ev["tags"] = [rng.randint(1, 9) for _ in range(n)]
+                ev["keys"] = rng.sample(["x", "y", "z", "u", "v", "k10", "k2", "a", "b", "c", "m", "n", "o"], n)
             return ev
         if len(st.P) < 2 or rng.random() < 0.08:
             shape = rng.choice([(2,), (3, 2), (1,), (2, 2)])
